@@ -41,6 +41,31 @@ def soup(rng, n):
     return " ".join(toks)
 
 
+def macro_soup(rng):
+    """definitions and uses of macros whose expansions are themselves definitions, macro
+    definitions, or uses of other macros, at top level and inside bodies"""
+    names = ["m", "n", "k", "p"]
+    tmpls = ["(define-syntax %(a)s (syntax-rules () ((%(a)s x) (define-syntax x (syntax-rules () ((x) 1))))))",
+             "(define-syntax %(a)s (syntax-rules () ((%(a)s x v) (define x v))))",
+             "(define-syntax %(a)s (syntax-rules () ((%(a)s x) (%(b)s x))))",
+             "(define-syntax %(a)s (syntax-rules () ((%(a)s x ...) (begin (define-syntax x (syntax-rules () ((x) 2))) ...))))",
+             "(define-syntax %(a)s (syntax-rules () ((%(a)s) (define-syntax %(a)s (syntax-rules () ((%(a)s) 3))))))",
+             "(define-syntax %(a)s (syntax-rules () ((%(a)s x) (lambda () (define-syntax x (syntax-rules () ((x) 4))) (x)))))",
+             "(define-syntax %(a)s (syntax-rules () ((%(a)s x) (let ((x 1)) (define-syntax %(b)s (syntax-rules () ((%(b)s) x))) (%(b)s)))))"]
+    uses = ["(%(a)s %(b)s)", "(%(a)s)", "(%(b)s)", "(%(a)s %(b)s 5)", "%(b)s", "((%(a)s %(b)s))", "(%(a)s %(a)s)", "(%(a)s %(b)s %(c)s)"]
+    out = []
+    for _ in range(rng.randrange(2, 6)):
+        t = rng.choice(tmpls + uses + uses)
+        d = {"a": rng.choice(names), "b": rng.choice(names), "c": rng.choice(names)}
+        if t in tmpls:
+            # a macro only ever expands into uses of LATER names: no expansion cycles (an infinite
+            # expansion does not terminate in any implementation; it is not what this stream is after)
+            i = rng.randrange(0, len(names) - 1)
+            d = {"a": names[i], "b": rng.choice(names[i + 1:]), "c": rng.choice(names)}
+        out.append(t % d)
+    return " ".join(out)
+
+
 def mutate(rng, text):
     toks = text.replace("(", " ( ").replace(")", " ) ").split()
     for _ in range(rng.randrange(1, 4)):
@@ -69,6 +94,15 @@ def classify(r):
 
 def run(rep, tier, rng):
     texts = []
+    # the corpus of minimised past failures runs first
+    corpus = os.path.join(C.ROOT, "corpus", "c07_corpus.txt")
+    if os.path.exists(corpus):
+        for line in open(corpus):
+            if line.strip() and not line.startswith("#"):
+                texts.append(("corpus", line.rstrip("\n")))
+    # macro-defining macros and other expansion/definition interplay (a past panic)
+    for _ in range(200 if tier == "quick" else 4000):
+        texts.append(("macro-soup", macro_soup(rng)))
     maxlen = 4
     for L in range(1, maxlen + 1):
         for t in itertools.product(ALPHA20, repeat=L):
@@ -105,14 +139,19 @@ def run(rep, tier, rng):
             rep.extra["chunks_not_finished"] = rep.extra.get("chunks_not_finished", 0) + 1
             continue      # some text of this chunk does not terminate (e.g. an infinite tail loop): outside the claim
         if len(a) != len(forms):
-            # the process died on this chunk: find the text
-            culprit = None
-            for k in range(0, len(forms), 2):
-                r1 = C.run_hx([("x", "prog", ["std", forms[k]])], timeout=60).get("x", ["?"])
-                if r1 and r1[0].startswith("P "):
-                    culprit = (forms[k], r1); break
+            # the process died on this chunk: the shortest prefix of its texts (they share one interpreter) that kills it
+            lo, hi = 0, len(forms) // 2
+            while lo < hi:
+                mid = (lo + hi) // 2
+                rr = C.run_hx([("x", "prog", ["std"] + forms[:2 * (mid + 1)])], timeout=120).get("x", [])
+                if len(rr) == 2 * (mid + 1):
+                    lo = mid + 1
+                else:
+                    hi = mid
             rep.violation({"what": "the interpreter process died (abort / stack overflow / out of memory) while evaluating a text",
-                           "text": culprit[0] if culprit else forms[0], "result": culprit[1] if culprit else a}); continue
+                           "text": forms[2 * lo] if 2 * lo < len(forms) else None,
+                           "earlier_texts_on_the_same_interpreter": [forms[2 * j] for j in range(max(0, lo - 12), lo)],
+                           "result": a}); continue
         for k in range(0, len(forms), 2):
             kind, text = texts[ci * CH + k // 2]
             rep.count()
